@@ -133,6 +133,14 @@ class Check:
             thms[name] = axs
         if p.returncode != 0 and not thms:
             self.broken.append("audit: " + out[-1500:])
+        try:
+            declared = re.findall(r"^#print axioms (\S+)", open(os.path.join(LEAN, audit_module_file)).read(), re.M)
+        except OSError:
+            declared = []
+        for name in declared:
+            if name not in thms:
+                self.obligations.append(name)
+                self.broken.append(f"audit: theorem {name} was not elaborated")
         for name, axs in thms.items():
             self.obligations.append(name)
             bad = [a for a in axs if a not in ALLOWED_AXIOMS]
